@@ -39,7 +39,7 @@ type Config struct {
 }
 
 func defaultConfig() Config {
-	return Config{MaxSteps: 400000, MaxLoop: 300, MaxDepth: 200, MaxAlloc: 1 << 16, EnumCap: 64, MaxPaths: 2000000,
+	return Config{MaxSteps: 400000, MaxLoop: 300, MaxDepth: 200, MaxAlloc: 1 << 16, EnumCap: 256, MaxPaths: 2000000,
 		Params: map[string]int{}, Workers: 16, SolverBin: envOr("GOSYMX_SOLVER", defaultSolver()), Samples: 4}
 }
 
